@@ -1007,6 +1007,9 @@ func (c *c14) oneCase(kind string, nops int) {
 	if kind == "story" {
 		c.story()
 	}
+	if kind == "lazy" && c.rng.Intn(3) == 0 {
+		c.storyOverflow()
+	}
 
 	discRun := false
 	for i := 0; i < nops && !c.dead; i++ {
@@ -1106,7 +1109,7 @@ func (c *c14) oneCase(kind string, nops int) {
 
 		case r < 92:
 			// a historical rescan completes
-			lie := malformed && c.rng.Intn(5) == 0
+			lie := (malformed || c.lazy) && c.rng.Intn(5) == 0
 			if lie {
 				invalid("stale_rescan")
 			}
@@ -1322,6 +1325,50 @@ func (c *c14) storyInterleave(k int) {
 	}
 }
 
+// storyOverflow (lazy clients only): a client that never reads its Updates
+// channel; a shallow reorg plus a second registration make the notifier send
+// more updates than the channel's capacity, so a later NotifyHeight blocks.
+func (c *c14) storyOverflow() {
+	k := c.rng.Intn(3)
+	if _, _, ok := c.txOnChain(k); ok {
+		return
+	}
+	for _, o := range c14TxSpends[k] {
+		if _, _, _, ok := c.opOnChain(o); ok {
+			return
+		}
+	}
+	nc := uint32(3)
+	if c.rng.Intn(3) == 0 {
+		nc = 2
+	}
+	c.opRegConf(k, nc, c.cur+1)
+	steps := []string{"ct", "n", "c", "n", "d", "r", "c", "n", "c", "n", "d", "r", "c", "n", "c", "n"}
+	for _, st := range steps {
+		if c.dead || c.cur >= 12 {
+			return
+		}
+		switch st {
+		case "ct":
+			c.opConnect([]int{k})
+		case "c":
+			c.opConnect(nil)
+		case "n":
+			if c.needNtfy != 0 {
+				c.opNotify(c.needNtfy)
+			}
+		case "d":
+			if c.cur > 0 && c.cur-1+c.limit > c.maxTip {
+				c.opDisconnect(c.cur)
+			}
+		case "r":
+			if len(c.regs) < 7 {
+				c.opRegConf(k, nc, 1)
+			}
+		}
+	}
+}
+
 func TestVerifC14(t *testing.T) {
 	out := os.Getenv("VERIF_OUT")
 	if out == "" {
@@ -1349,7 +1396,7 @@ func TestVerifC14(t *testing.T) {
 
 	nValid, nStory, nLazy, nMal := 400, 150, 60, 120
 	if tier == "thorough" {
-		nValid, nStory, nLazy, nMal = 12000, 4000, 600, 2400
+		nValid, nStory, nLazy, nMal = 40000, 12000, 1500, 8000
 	}
 	for i := 0; i < nValid; i++ {
 		c.oneCase("valid", 20+c.rng.Intn(30))
